@@ -19,7 +19,7 @@ MANIFEST = {
     "text": "Coq theorems over the handler and query models: GetValue / PublishValue / Actuate / BatchActuate with signal_id, oneof, data_point or value absent are answered INVALID_ARGUMENT; an absent value is NotAvailable; a request answered with an error leaves the store (publish) resp. the whole state (actuate, batch) exactly as it was, so the broker keeps serving; the executor arm guarded by debug_assert (unresolved literal) is unreachable from every compiled query, and LAG with other than one plain argument, other functions and unary minus are answered with a compilation error. Tied to the code on every run: (1) the databroker's own tonic server on loopback is sent every RPC of the three services (incl. the three client-streaming ones) in 170 structural shapes - every optional message part absent, oneofs unset, enums out of range, empty / 1001- / 100000-character paths, 100000-element arrays, 1000-element batches, extreme timestamps, queries at and beyond the size limits - each followed by a probe (write, read back, list metadata) that must succeed, with the panic hook counting panics and a crashed or silent server reported with the request; (2) handler-level histories with absent and invalid parts are diffed against the extracted model, a panicking operation being reported per operation while the history goes on; (3) free-text queries; (4) a panic-site inventory: every unwrap / expect / todo! / index / assert in the production code of the request path must be listed in panic_inventory.json with the reason why no request reaches it.",
     "note": "Partial by nature: the theorems cover the handlers the model has (Model/Api.v: Get/Set/GetValue(s)/PublishValue/Actuate/BatchActuate/ListMetadata/sdv Get/Set/Update/Register/GetMetadata and the query compiler/executor); Subscribe variants, provider and collector streams and GetServerInfo are covered by the structural enumeration only; panics inside libraries (tonic, prost, sqlparser) are reachable only by that enumeration. Memory exhaustion and slow clients are not covered: a query subscriber that stops reading blocks writers once its 10-slot channel is full (DESIGN.md, limits). Trusted: Coq kernel; Flocq's stdlib axioms; extraction; harness/src/fam_srv.rs, fam_shapes.rs, fam_hist.rs; vp/inventory.py (a textual scan). The VISS socket is covered by C20.",
 }
-RULE = ("exhaustive over the catalogue: 22 RPCs x their structural variants (170 request shapes, harness/src/fam_shapes.rs), "
+RULE = ("exhaustive over the catalogue: 22 RPCs x their structural variants (170 request shapes, harness/src/fam_shapes.rs) plus 28 texts with multi-byte characters straddling the path limit (1000 bytes) and the query limit (4096 bytes) in every alignment, put into every text slot of every RPC (644 more shapes), "
         "each on the real server followed by a probe; seeded handler-level histories (absent signal_id / oneof / datapoint "
         "/ value, unknown enum numbers, over-long paths); seeded free-text queries; the inventory compares every "
         "panic-capable construct of 23 source files with panic_inventory.json; non-trivial = a request answered with an "
@@ -32,6 +32,9 @@ ASSUMPTIONS = ["a request shape not in the catalogue and a panic inside a librar
                "test modules (#[cfg(test)], #[test]) are excluded from the inventory"]
 EXHAUSTIVE = False
 N_VARIANTS = 24
+N_TEXTS = 28
+TEXT_SLOT_1 = [0, 1, 2, 3, 5, 6, 7, 9, 10, 11, 12, 13, 15, 16, 17, 18, 19]
+TEXT_SLOT_2 = [1, 2, 11, 12, 17, 19]
 
 
 class Shapes:
@@ -47,6 +50,13 @@ class Shapes:
             for v in range(1, N_VARIANTS):
                 cases.append(("r%d_%d" % (rpc, v), [[0, 0], [1, rpc, v, 10 + k % 100, 0], [3, 5000 + k]]))
                 k += 1
+        # text variants: 100+t puts text t (multi-byte characters straddling the length limits, see nasty()
+        # in fam_shapes.rs) into the RPC's first text slot, 200+t into its second one
+        for rpc in TEXT_SLOT_1:
+            for t in range(N_TEXTS):
+                for base in ([100, 200] if rpc in TEXT_SLOT_2 else [100]):
+                    cases.append(("r%d_%d" % (rpc, base + t), [[0, 0], [1, rpc, base + t, 10 + k % 100, 0], [3, 5000 + k]]))
+                    k += 1
         return cases
 
     @staticmethod
